@@ -364,3 +364,17 @@ for _pid, _h, _ml in (('C12', 'tree_fuzz', 1024), ('C13', 'tree_fuzz', 1024), ('
     PROPS[_pid].rule += ' libFuzzer sub-run: coverage-guided campaign (clang, ASan+UBSan, sync atomics) whose bytes are decoded into the same case structure and run through the same oracle; 4 x 12 s quick, 16 x 300 s thorough; fresh corpus' + (' + committed seed inputs' if _pid == 'C16' else '') + '.'
     TECHNIQUE[_pid] += ' + coverage-guided fuzzing (libFuzzer, structure-aware decode, same oracle)'
 ENGINES.append(dict(name='fuzz', path='engines/seq (built with -DVERIF_FUZZ)', serves_properties=['C11', 'C12', 'C13', 'C14', 'C15', 'C16', 'C17'], kind_free_text='libFuzzer targets sharing case structure and oracle with the rapidcheck harnesses'))
+
+# ---- real-thread sub-checks for C02 / C03 / C05 (TSan happens-before oracle + outcome oracles) ---------------
+harness('rt_tsan_general', 'engines/rthreads/rthreads.cpp', 'gcc-tsan-general')
+harness('rt_asan_c11', 'engines/rthreads/rthreads.cpp', 'gcc-asan')
+def _rt2(kinds, cfgs, q, t):
+    return [Sub('rt_' + c, 'rt_' + c, shards=(1, 2), cases=(q, t), maxsize=(100, 100), kind='stress', env={'VERIF_KINDS': kinds, 'VERIF_CONFIG_TSAN': 1 if 'tsan' in c or 'asan' in c else 0}, timeout=(900, 3600)) for c in cfgs]
+PROPS['C02'].subs += _rt2('rwrec', ['tsan_c11', 'tsan_general', 'plain_c11'], 25, 300)
+PROPS['C03'].subs += _rt2('bbuf', ['tsan_c11', 'plain_c11'], 12, 200)
+PROPS['C05'].subs += _rt2('thr', ['tsan_c11', 'asan_c11', 'plain_c11'], 20, 300)
+PROPS['C02'].rule += ' Real-thread sub-checks: generated (threads, rounds, noise) reader/writer programs on real threads under ThreadSanitizer for the native and the general implementation, plus a plain -O2 run: record race or lost update = violation.'
+PROPS['C03'].rule += ' Real-thread sub-checks: generated bounded-buffer programs (capacity 1-3, signal/broadcast by seed) on real threads under ThreadSanitizer and plain -O2: items conserved, no race report.'
+PROPS['C05'].rule += ' Real-thread sub-checks: rounds of create/ref/unref/join with exit codes, plain result stores read after join and TLS set/replace with a counting notifier, under ThreadSanitizer, ASan and plain -O2.'
+for _e in ENGINES:
+    if _e['name'] == 'rthreads': _e['serves_properties'] += ['C02', 'C03', 'C05']
